@@ -210,6 +210,7 @@ def c06(run):
         run.broke('harness build', o[-1500:])
     else:
         D.correspond(run, 'nonce', [])
+        D.correspond(run, 'objhist', [], reference_theorem='C01_object_produce_is_functional / C06_* (one message object over a history: the IV chosen by Encrypt is the one published)')
         D.oracle(run, 'reuse', [])
     run.cov['rule'] = ('Encrypt0/Encrypt x nonce sizes 7/12/13 x IV, Partial IV, Base IV presences, lengths 0..20 and wrong types, with a known entropy stream and a recording encryptor (Encrypt and Decrypt); '
                        '12 real AEADs x nonce lengths 0..17; library-chosen nonces of fresh messages under real entropy (quick 3x4000, thorough 3x200000); stream reuse: an object encrypted once (library-chosen IV) given an IV by the caller and encrypted again, twice: the caller\'s IV is published and the message decrypts')
